@@ -221,18 +221,24 @@ func c06Run(j *orch.Job, r *orch.Result) error {
 	}
 	_ = repeatsAt
 
-	n, err := harness.StartNode(harness.NodeConfig{DBPath: filepath.Join(j.Dir, "db")}, m.W.Chain)
+	// blocks also fail once before they are applied (a failed directory-block fetch; the last statement before
+	// COMMIT): an entry still takes effect at most once however many attempts its block needed
+	n, err := harness.StartNode(harness.NodeConfig{DBPath: filepath.Join(j.Dir, "db"), Wrap: true}, m.W.Chain)
 	if err != nil {
 		return err
 	}
+	undo := installRetries(n, r, p.Seed, e)
+	defer func() { undo() }()
 	n.Run()
 	// one clean restart in the middle of the placements (repeats across a restart)
 	restartAt := T + 1
 	err = gen.Drive(n, m, m.W, restartAt, harness.WaitOpts{}, nil)
 	if err == nil {
 		n.Stop()
-		n, err = harness.StartNode(harness.NodeConfig{DBPath: filepath.Join(j.Dir, "db")}, m.W.Chain)
+		undo()
+		n, err = harness.StartNode(harness.NodeConfig{DBPath: filepath.Join(j.Dir, "db"), Wrap: true}, m.W.Chain)
 		if err == nil {
+			undo = installRetries(n, r, p.Seed+1, e)
 			n.Run()
 			err = gen.Drive(n, m, m.W, tip, harness.WaitOpts{}, nil)
 		}
@@ -409,6 +415,8 @@ func checkC06(c *Ctx) *orch.Outcome {
 	o.Extra["entries_executed_exactly_once"] = orch.SumCounter(rs, "executed_once")
 	o.Extra["metamorphic_pairs"] = orch.SumCounter(rs, "metamorphic_pairs")
 	o.Extra["converted_amounts_compared"] = orch.SumCounter(rs, "converted_amounts_compared")
+	o.Extra["blocks_applied_twice_after_a_late_failure"] = orch.SumCounter(rs, "blocks_applied_twice_after_a_late_failure")
+	o.Extra["blocks_retried_after_a_failed_dblock_fetch"] = orch.SumCounter(rs, "blocks_retried_after_a_failed_dblock_fetch")
 	o.Extra["placements"] = orch.UnionDistinct(rs, "placements")
 	o.MinNontrivial = 30
 	return o
